@@ -267,8 +267,15 @@ func (d *down) CodeLens(_ context.Context, p *protocol.CodeLensParams) ([]protoc
 func (d *down) CodeAction(_ context.Context, p *protocol.CodeActionParams) ([]protocol.CodeAction, error) {
 	emit("D CodeAction %s range=%s", p.TextDocument.URI, pr(p.Range))
 	var as []protocol.CodeAction
+	// per scripted range two quick fixes: one that carries only diagnostics (a command-only or lazily resolved fix),
+	// one that also carries a workspace edit of the same range in the generated file
 	for _, l := range d.cur.Answer {
 		as = append(as, protocol.CodeAction{Title: "a", Diagnostics: []protocol.Diagnostic{{Range: toRange(l.R), Message: "m"}}})
+		as = append(as, protocol.CodeAction{Title: "b", Diagnostics: []protocol.Diagnostic{{Range: toRange(l.R), Message: "m"}},
+			Edit: &protocol.WorkspaceEdit{DocumentChanges: []protocol.DocumentChanges{{TextDocumentEdit: &protocol.TextDocumentEdit{
+				TextDocument: protocol.OptionalVersionedTextDocumentIdentifier{TextDocumentIdentifier: protocol.TextDocumentIdentifier{URI: p.TextDocument.URI}},
+				Edits:        []protocol.Or_TextDocumentEdit_edits_Elem{{Value: protocol.TextEdit{Range: toRange(l.R), NewText: "x"}}},
+			}}}}})
 	}
 	return as, nil
 }
@@ -458,10 +465,40 @@ func run(srv *proxy.Server, cli *proxy.Client, d *down, op *Op) {
 			if err != nil {
 				s = "error"
 			} else if r != nil {
+				// the two quick fixes of one scripted range carry the same range three times (two diagnostics, one
+				// edit): printed once when they agree and the edit names the requested document, in full otherwise
 				var ps []string
-				for _, a := range r {
-					for _, dg := range a.Diagnostics {
-						ps = append(ps, pr(dg.Range))
+				for i := 0; i < len(r); i += 2 {
+					var all []string
+					for _, a := range r[i:min(i+2, len(r))] {
+						for _, dg := range a.Diagnostics {
+							all = append(all, pr(dg.Range))
+						}
+						if a.Edit != nil {
+							for _, dc := range a.Edit.DocumentChanges {
+								if dc.TextDocumentEdit == nil {
+									continue
+								}
+								for _, e := range dc.TextDocumentEdit.Edits {
+									if te, ok := e.Value.(protocol.TextEdit); ok {
+										if dc.TextDocumentEdit.TextDocument.URI == tdp.TextDocument.URI {
+											all = append(all, pr(te.Range))
+										} else {
+											all = append(all, pr(te.Range)+"@"+string(dc.TextDocumentEdit.TextDocument.URI))
+										}
+									}
+								}
+							}
+						}
+					}
+					same := len(all) == 3
+					for _, x := range all {
+						same = same && x == all[0]
+					}
+					if same {
+						ps = append(ps, all[0])
+					} else {
+						ps = append(ps, "{"+strings.Join(all, "|")+"}")
 					}
 				}
 				s = "[" + strings.Join(ps, ",") + "]"
